@@ -25,7 +25,8 @@ const (
 	sBV
 	sF64
 	sStr  // element of the uninterpreted-ish sort of strings (encoded as Int)
-	sReal // a float64 known to lie on an exact dyadic grid, encoded as an SMT Real (see realmode.go)
+	sReal // a float64 known to lie on an exact dyadic grid, encoded as a scaled SMT Int (see realmode.go)
+	sInt  // a Go integer encoded as an SMT Int (exact-grid mode only; comparisons, +, -, % const)
 )
 
 type sym struct {
@@ -48,8 +49,8 @@ func sortText(k skind, w int) string {
 		return "(_ FloatingPoint 11 53)"
 	case sStr:
 		return "Int"
-	case sReal:
-		return "Real"
+	case sReal, sInt:
+		return "Int"
 	}
 	panic("sortText")
 }
@@ -323,6 +324,9 @@ func symIte(c, a, b sym) sym {
 	if a.k == sReal || b.k == sReal {
 		a, b = toReal(a), toReal(b)
 	}
+	if a.k == sInt || b.k == sInt {
+		a, b = toInt(a, true), toInt(b, true)
+	}
 	if c.t == "true" {
 		return a
 	}
@@ -335,6 +339,13 @@ func symIte(c, a, b sym) sym {
 func symEq(a, b sym) sym {
 	if a.k == sReal || b.k == sReal {
 		a, b = toReal(a), toReal(b)
+	}
+	if a.k == sInt || b.k == sInt {
+		a, b = toInt(a, true), toInt(b, true)
+		if a.t == b.t {
+			return mkBool("true")
+		}
+		return mkBool("(= " + a.t + " " + b.t + ")")
 	}
 	if a.k != b.k || a.w != b.w {
 		panic(unsupported(fmt.Sprintf("symEq sorts %v/%d vs %v/%d", a.k, a.w, b.k, b.w)))
@@ -363,6 +374,9 @@ func symBinop(op token.Token, t types.Type, x, y value) value {
 		return realBinop(op, toReal(a), toReal(b))
 	}
 	_, _, signed, _ := symSortOf(t)
+	if a.k == sInt || b.k == sInt {
+		return intBinop(op, toInt(a, signed), toInt(b, signed))
+	}
 	switch a.k {
 	case sBool:
 		switch op {
@@ -487,8 +501,8 @@ func strBinop(op token.Token, a, b sym) value {
 }
 
 func symUnop(op token.Token, x sym) value {
-	if x.k == sReal && op == token.SUB {
-		return sym{sReal, 0, "(- " + x.t + ")"}
+	if (x.k == sReal || x.k == sInt) && op == token.SUB {
+		return sym{x.k, 0, "(- " + x.t + ")"}
 	}
 	switch op {
 	case token.NOT:
@@ -547,7 +561,17 @@ func symConv(tDst, tSrc types.Type, x sym) value {
 		if dk == sF64 {
 			return x
 		}
-		panic(unsupported("conversion of an exact-grid float to an integer type (use the FP mode)"))
+		if dk == sBV {
+			// truncation toward zero; the result is a mathematical integer (sInt)
+			return sym{sInt, 0, realToIntTrunc(x.t)}
+		}
+	case sInt:
+		if dk == sBV {
+			return x // value-preserving: range obligations are generated where it matters
+		}
+		if dk == sF64 {
+			return sym{sReal, 0, "(* " + gridScale().String() + " " + x.t + ")"}
+		}
 	case sF64:
 		switch dk {
 		case sF64:
@@ -557,8 +581,17 @@ func symConv(tDst, tSrc types.Type, x sym) value {
 				// amd64 semantics (CVTTSD2SI): out-of-range and NaN give the "integer
 				// indefinite" value 0x8000000000000000.  The Go spec leaves the result
 				// implementation-defined; the binaries replayed here run on amd64.
-				inRange := "(and (fp.lt " + x.t + " " + f64Lit(9223372036854775808.0) + ") (fp.geq " + x.t + " " + f64Lit(-9223372036854775808.0) + "))"
-				return sym{sBV, 64, "(ite " + inRange + " ((_ fp.to_sbv 64) RTZ " + x.t + ") #x8000000000000000)"}
+				// Peephole (value-preserving): int64(math.Ceil(t)) / int64(math.Floor(t)) convert
+				// with the directed rounding mode straight from t.  Near +-2^63 every float64
+				// is integral, so the in-range conditions of t and of its ceiling/floor agree.
+				arg, mode := x.t, "RTZ"
+				for _, pm := range [][2]string{{"(fp.roundToIntegral RTP ", "RTP"}, {"(fp.roundToIntegral RTN ", "RTN"}} {
+					if strings.HasPrefix(x.t, pm[0]) && balanced(x.t) {
+						arg, mode = x.t[len(pm[0]):len(x.t)-1], pm[1]
+					}
+				}
+				inRange := "(and (fp.lt " + arg + " " + f64Lit(9223372036854775808.0) + ") (fp.geq " + arg + " " + f64Lit(-9223372036854775808.0) + "))"
+				return sym{sBV, 64, "(ite " + inRange + " ((_ fp.to_sbv 64) " + mode + " " + arg + ") #x8000000000000000)"}
 			}
 			if dsigned {
 				// narrower signed: convert through int64 then truncate (what gc emits).
